@@ -174,3 +174,19 @@ Proof.
       apply pset_comm; [congruence|congruence|congruence].
   - cbn [tbl pings]. rewrite Hp, Hph. reflexivity.
 Qed.
+
+(* ------------------------------------------------------------------ *)
+(* sessions: the table is process-wide and Session.Close does not touch it *)
+
+Theorem close_session_noop fx s k : step fx s (CloseSession k) = Ok s.
+Proof. reflexivity. Qed.
+
+(* call 0 and call 1 are pending (on whatever sessions); sessions 0 and 1 are closed; the reply for
+   call 1 still completes it, call 0 ends by its timer; nothing is left in the table *)
+Definition ex_sessions : list event :=
+  [Begin 0%nat SECOND; Sent 0%nat true; Begin 1%nat SECOND; Sent 1%nat true;
+   CloseSession 0; CloseSession 1; Notify 2; End 1%nat; Tick SECOND; Timeout 0%nat; End 0%nat].
+Example sessions_example :
+  exists s, run FIX24 init_go ex_sessions = Ok s /\
+    result_of s 0%nat = Some RTimeout /\ result_of s 1%nat = Some RNil /\ tbl s = [].
+Proof. eexists. split; [vm_compute; reflexivity|]. repeat split; vm_compute; reflexivity. Qed.
